@@ -30,29 +30,28 @@ Fill(refs, e) ==
 ScopeOf(ast, e) == IF "v" \in DOMAIN e THEN [ok |-> TRUE, sc |-> e.v] ELSE Fill(RefNames(ast), e)
 
 (* ---- expressions without stateful functions: the outcome is a function of (input, mode) ---- *)
-(* first step (1-based) of the run that the reference semantics cannot explain, 0 if none *)
-StepOKPure(s, scs, base, ill, hc) ==
+ApiModes == {"E", "T", "I", "F", "S", "B", "D", "P"}
+StepOKPure(s, scs, base) ==
     \/ s[2] = "Z"
-    \/ IF ~scs[s[1]].ok THEN IsErr(s[4]) ELSE OutcomeAgrees(s[2], s[4], base[s[1]], ill[s[1]], hc)
-FirstBadPure(run, scs, base, ill, hc) ==      \* no recursion: runs of this kind are long
-    LET B == { i \in DOMAIN run : ~StepOKPure(run[i], scs, base, ill, hc) } IN
+    \/ IF ~scs[s[1]].ok THEN IsErr(s[4]) ELSE OutcomeAgrees(s[4], base[s[1]][s[2]])
+(* first step (1-based) of the run that the reference semantics cannot explain, 0 if none *)
+FirstBadPure(run, scs, base) ==      \* no recursion: runs of this kind are long
+    LET B == { i \in DOMAIN run : ~StepOKPure(run[i], scs, base) } IN
     IF B = {} THEN 0 ELSE CHOOSE i \in B : \A j \in B : i <= j
 
 (* ---- expressions with stateful functions: follow the function state of every copy ---- *)
 (* The copies are independent in the reference semantics, so the function states that can explain the  *)
 (* observations so far are tracked per copy: cands[cp] is a set of states.  StepSet gives the states of  *)
-(* the addressed copy after a step (empty: the step cannot be explained).                                *)
+(* the addressed copy after a step (empty: the step cannot be explained).  The reference semantics fixes  *)
+(* the state after every call, also after an error; only an undecided outcome <<"?", t>> (which may hide  *)
+(* an error) leaves a range of states.                                                                    *)
 StepSet(ast, scs, s, S) ==
     LET k == s[1]  mode == s[2]  got == s[4] IN
     IF mode = "Z" THEN {St0(ast)}
     ELSE IF ~scs[k].ok THEN (IF IsErr(got) THEN S ELSE {})
-    ELSE LET ill == TypeStrict(ast, scs[k].sc) = "err"
-             hc == HasCall(ast)
-             after(c) == LET r == EvalTop(ast, scs[k].sc, c) IN
-                         IF ~OutcomeAgrees(mode, got, r[1], ill, hc) THEN {}
-                         ELSE IF mode = "T" THEN {c}
-                         ELSE IF IsErr(got) \/ IsAny(r[1])    \* (an undecided value may hide an error or a short circuit)
-                              THEN ErrStates(c, EvalAll(ast, <<>>, scs[k].sc, c, <<>>)[2]) \cup {r[2]}
+    ELSE LET after(c) == LET r == RefApi(mode, ast, scs[k].sc, c) IN
+                         IF ~OutcomeAgrees(got, r[1]) THEN {}
+                         ELSE IF r[1][1] = "?" THEN ErrStates(c, EvalAll(ast, <<>>, scs[k].sc, c, <<>>)[2]) \cup {r[2]}
                          ELSE {r[2]}
          IN UNION { after(c) : c \in S }
 RECURSIVE FirstBadStateful(_, _, _, _, _)
@@ -84,12 +83,12 @@ LineOK(ln, lineNo) ==
     ELSE \E stateful \in {HasStateful(ast)} :
          \E scs \in {<<>> \o [k \in DOMAIN ln.sc |-> ScopeOf(ast, ln.sc[k])]} :
          \E base \in {IF stateful THEN <<>>
-                       ELSE <<>> \o [k \in DOMAIN ln.sc |-> IF scs[k].ok THEN EvalTop(ast, scs[k].sc, St0(ast))[1] ELSE Err]} :
-         LET ill == [k \in DOMAIN ln.sc |-> scs[k].ok /\ TypeStrict(ast, scs[k].sc) = "err"]
-             c0 == [cp \in CopyIds |-> {St0(ast)}]
+                       ELSE <<>> \o [k \in DOMAIN ln.sc |->
+                                     IF scs[k].ok THEN [m \in ApiModes |-> RefApi(m, ast, scs[k].sc, St0(ast))[1]] ELSE [m \in ApiModes |-> Err]]} :
+         LET c0 == [cp \in CopyIds |-> {St0(ast)}]
              bad(r) == IF stateful THEN FirstBadStateful(ast, scs, ln.runs[r], 1, c0)
-                       ELSE FirstBadPure(ln.runs[r], scs, base, ill, HasCall(ast))
-             opaque == stateful \/ \E k \in DOMAIN base : IsAny(base[k])
+                       ELSE FirstBadPure(ln.runs[r], scs, base)
+             opaque == stateful \/ \E k \in DOMAIN base : \E m \in ApiModes : IsAny(base[k][m])
          IN \E badRuns \in {{ r \in DOMAIN ln.runs : bad(r) # 0 }} :
             IF badRuns # {}
             THEN LET r == CHOOSE x \in badRuns : \A y \in badRuns : x <= y
